@@ -573,8 +573,17 @@ def extra_run(tier, seed_value, findings):
             if sig not in sigs:
                 sigs.add(sig)
                 total["violations"].append((sig, msg, case))
+    fuzz = {"evaluations": 0, "violations": [], "note": "coverage-guided part runs in the thorough tier only"}
+    if tier == "thorough":
+        from fuzz import driver
+
+        fuzz = driver.run("c13", seed_value, runs=60000, jobs=4)
+        for sig, msg, case in fuzz["violations"]:
+            if sig not in sigs and not findings.match_open(PID, sig):
+                sigs.add(sig)
+                total["violations"].append((sig, msg, case))
     return {
-        "evaluations": total["transitions"],
+        "evaluations": total["transitions"] + fuzz["evaluations"],
         "nontrivial": total["nontrivial"],
         "violations": total["violations"],
         "known_hits": total["known_hits"],
@@ -594,5 +603,6 @@ def extra_run(tier, seed_value, findings):
             },
             "states": total["states"],
             "transitions": total["transitions"],
+            "coverage_guided_part": {"runs": fuzz["evaluations"], "note": fuzz["note"]},
         },
     }
